@@ -326,6 +326,34 @@ func C04(c *vk.Ctx) {
 	// only lists of the OTHER CA (or nothing usable) are ever served at the distribution point of c1, while certificates of both
 	// CAs keep being presented: whichever chain a handshake brought along, the other CA never becomes entitled for c1's location
 	hubFocus(c, hcfgs, c.Pick(500, 6000), func(d hubDoc) bool { return d.Signer == "B" || d.Q == "garbage" }, RandomShape, predC04hub)
+	// a list that a laxer configuration took in at a refresh, met again by a restart under "verify" with the origin gone
+	switched := 0
+	srng := mrand.New(mrand.NewSource(c.Seed + 404))
+	for _, strict := range []bool{true, false} {
+		for _, lax := range []string{"verify_log", "none"} {
+			if c.Violations() > 6 {
+				break
+			}
+			fam := []HubCfg{
+				{Mode: "crl_only", Sig: lax, Strict: strict, Fetch: "actively", Disk: true, TrustA: false, Conf: "none", Ocsp: "noaia"},
+				{Mode: "crl_only", Sig: "verify", Strict: strict, Fetch: "actively", Disk: true, TrustA: false, Conf: "none", Ocsp: "noaia"}}
+			g, res := exportHubFamily(c, fam)
+			c.Add("states", res.Distinct)
+			paths := refreshThenStricterPaths(g)
+			srng.Shuffle(len(paths), func(i, j int) { paths[i], paths[j] = paths[j], paths[i] })
+			for pi, w := range paths {
+				if pi >= c.Pick(10, 400) || c.Violations() > 6 {
+					break
+				}
+				hubGoneUnfetched.Store(true)
+				runHubWalk(c, fam[0], w, RandomShape(srng), c.Seed*7400+int64(switched), predC04hub)
+				hubGoneUnfetched.Store(false)
+				switched++
+			}
+		}
+	}
+	c.Set("refresh_then_stricter_restart_paths", int64(switched))
+	c.Add("traces_validated_against_impl", int64(switched))
 	c.Set("traces_validated_against_impl", int64(n))
 	c.Set("exhaustive", c.Thorough())
 	c.Set("spec", "Authz.tla: the decision table signer(7) x AKI form(6) x keyUsage(3) x algorithm x mutation site(5); OnlyEntitled (mechanism in force => requirement allows it) and Complete proved on every row; CrlReader.tla DigestExact for 'exactly the signed portion'")
